@@ -41,8 +41,11 @@ Bigs == { [id |-> "big:int64:max", cls |-> "big", s |-> "9223372036854775807", p
 StrTexts == {"", "abc", "1", "1.5", "-2", "007", "0.5", "0", "a%20b", "-0.25", "12abc", ".5", "5.", "+3", "-", ".", "1.5.2",
              (* decimal means decimal: a leading zero is not octal, letters and digit separators make the string non-numeric *)
              "010", "0100", "012", "08", "0b11", "0o17", "1_000", "-010", "0777.5"}
+(* words and spellings that some number parsers accept and that are not decimal numerals: as numbers they are 0 *)
+NonDecimal == {"nan", "NaN", "inf", "Inf", "Infinity", "-inf", "0x1p4", "0x10", "1_0", "infinity"}
 Unescape(s) == IF s = "a%20b" THEN "a b" ELSE s
 Strs == {[id |-> "str:" \o t, cls |-> "str", s |-> Unescape(t)] : t \in StrTexts}
+        \cup {[id |-> "str:" \o t, cls |-> "word", s |-> t] : t \in NonDecimal}
 Bools == {[id |-> "bool:t", cls |-> "bool", b |-> TRUE], [id |-> "bool:f", cls |-> "bool", b |-> FALSE]}
 Fallbacks == {[id |-> x, cls |-> "fallback"] : x \in
   {"nil", "nilptr:int", "nilptr:string", "nilptr:struct", "nilptr:slice", "nilptr:map", "nilptr:vstringer", "nilptr:pstringer",
@@ -90,6 +93,7 @@ Expected(d) ==
     [] d.cls = "str" -> LET n == StrToNum(S2B(d.s)) IN
                         [str |-> Str(S2B(d.s)), num |-> (IF IsOOM(n) THEN AnyV ELSE n),
                          bool |-> IF d.s = "" THEN "f" ELSE IF d.s = "0" THEN "any" ELSE "t"]
+    [] d.cls = "word" -> [str |-> Str(S2B(d.s)), num |-> IntV(0), bool |-> "t"]
     [] d.cls = "bool" -> [str |-> Str(IF d.b THEN <<49>> ELSE <<>>), num |-> IntV(IF d.b THEN 1 ELSE 0), bool |-> IF d.b THEN "t" ELSE "f"]
     [] d.cls = "all" -> [str |-> Str(S2B(d.s)), num |-> Num(d.q), bool |-> IF d.b THEN "t" ELSE "f"]
     [] OTHER -> [str |-> Str(<<>>), num |-> IntV(0), bool |-> "f"]
